@@ -461,6 +461,36 @@ pub fn main() {
                         match cl {
                             Class::Ok(s) => {
                                 rep.bump("outcome_ok");
+                                // conservation: whatever is accepted contains every marker identifier of the input exactly
+                                // as often as the input does (an accepted input that lost or duplicated user tokens was
+                                // not expanded as written: malformed input accepted silently)
+                                if text.contains("__m") {
+                                    fn count(ts: TokenStream, m: &mut HashMap<String, i64>, d: i64) {
+                                        for t in ts {
+                                            match t {
+                                                TokenTree::Ident(i) => {
+                                                    let s = i.to_string();
+                                                    if s.starts_with("__m") {
+                                                        *m.entry(s).or_insert(0) += d;
+                                                    }
+                                                }
+                                                TokenTree::Group(g) => count(g.stream(), m, d),
+                                                _ => {}
+                                            }
+                                        }
+                                    }
+                                    let mut m = HashMap::new();
+                                    if let (Ok(i), Ok(o)) = (text.parse::<TokenStream>(), s.parse::<TokenStream>()) {
+                                        count(i, &mut m, 1);
+                                        count(o, &mut m, -1);
+                                        rep.bump("accepted_inputs_checked_for_token_conservation");
+                                        let mut bad: Vec<String> = m.iter().filter(|(_, d)| **d != 0).map(|(k, d)| format!("{} {}", k, if *d > 0 { format!("dropped x{}", d) } else { format!("duplicated x{}", -d) })).collect();
+                                        bad.sort();
+                                        if !bad.is_empty() {
+                                            rep.viol(id, text, cfg, format!("input accepted but user tokens are not carried into the expansion exactly once: {}", bad.join(", ")));
+                                        }
+                                    }
+                                }
                                 if label.starts_with("I:") {
                                     rep.viol(id, text, cfg, format!("structurally invalid input ({}) was accepted silently; output starts: {}", &label[2..], s.chars().take(160).collect::<String>()));
                                 }
